@@ -76,6 +76,7 @@ package quorum
 //@   ensures #is-an-ack [C11 C14] (len(c[0]) > 0 || len(c[1]) > 0) ==> (result == 0 || (exists id uint64 :: (has(c[0], id) || has(c[1], id)) && ack(l, id) == result))
 
 //@ func quorum.JointConfig.IDs [C13 C19]
+//@   frame elems quorum.MajorityConfig:
 //@   ensures #union fresh(result) && result != nil && (forall id uint64 :: has(result, id) <==> (has(c[0], id) || has(c[1], id)))
 //@   loop 1 invariant #outer allocframe("M$map[uint64]struct{}") && 0 <= iter && iter <= 2 && m != nil && fresh(m)
 //@        && (forall id uint64 :: has(m, id) <==> ((iter >= 1 && has(c[0], id)) || (iter >= 2 && has(c[1], id))))
